@@ -140,6 +140,15 @@ std::optional<sqf::runtime::fileio::pathinfo> sqf::fileio::impl_default::get_inf
             virt.append("/");
             virt.append(*it);
         }
+        // Nodes that only exist as part of a deeper mapping have no directory of their own:
+        // the deepest prefix that is actually mapped serves the request
+        while (nodes.size() > 1 && nodes.back()->physical.empty())
+        {
+            const auto& full = nodes.back()->virtual_full;
+            auto sep = full.find_last_of("/\\");
+            virt = "/" + (sep == std::string::npos ? full : full.substr(sep + 1)) + virt;
+            nodes.pop_back();
+        }
         log(logmessage::fileio::ResolveVirtualGotRemainder(current.physical, virt));
     }
     // Check every physical path in current tree_element if the file exists
